@@ -1668,6 +1668,100 @@ def rule_hyper_memo(chk, uni):
                                   % (attr, ", self.".join(sorted(deps)), sorted(guard & hyper) or "nothing of them",
                                      missing[0]), instance=inst)
 
+
+# ----------------------------------------------------------------------------
+# Newton-Girard style recursions: entries are normalised before a later iteration consumes them
+# ----------------------------------------------------------------------------
+def _recursions(fn):
+    """self-consuming list recursions of fn: [(loop, list name, append stmt, consuming stmts, in-loop normalisation
+    stmts, deferred divisions outside the loop)]"""
+    out = []
+    for lp in pf.walk_no_nested(fn):
+        if not (isinstance(lp, ast.For) and isinstance(lp.target, ast.Name)):
+            continue
+        nvar = lp.target.id
+        appended = {}
+        for st in lp.body:
+            if isinstance(st, ast.Expr) and isinstance(st.value, ast.Call) and isinstance(st.value.func, ast.Attribute) \
+                    and st.value.func.attr == "append" and isinstance(st.value.func.value, ast.Name):
+                appended.setdefault(st.value.func.value.id, st)
+        for R, app in appended.items():
+            def is_last(t):
+                return isinstance(t, ast.Subscript) and isinstance(t.value, ast.Name) and t.value.id == R \
+                    and pf.src(t.slice) == "-1"
+            consume, norm = [], []
+            for st in pf.walk_no_nested(lp):
+                if isinstance(st, ast.AugAssign) and is_last(st.target):
+                    earlier = [x for x in ast.walk(st.value) if isinstance(x, ast.Subscript) and isinstance(x.value, ast.Name)
+                               and x.value.id == R and pf.src(x.slice) != "-1"]
+                    if earlier and isinstance(st.op, (ast.Add, ast.Sub)):
+                        consume.append(st)
+                    elif isinstance(st.op, ast.Div) and nvar in {n.id for n in ast.walk(st.value) if isinstance(n, ast.Name)} \
+                            and pf.parent(st) is lp:
+                        norm.append(st)
+                    elif isinstance(st.op, ast.Mult) and pf.parent(st) is lp and any(
+                            isinstance(x, ast.BinOp) and isinstance(x.op, ast.Div) for x in ast.walk(st.value)) \
+                            and nvar in {n.id for n in ast.walk(st.value) if isinstance(n, ast.Name)}:
+                        norm.append(st)
+                elif isinstance(st, ast.Assign) and len(st.targets) == 1 and is_last(st.targets[0]) and pf.parent(st) is lp \
+                        and isinstance(st.value, ast.BinOp) and isinstance(st.value.op, ast.Div) and is_last(st.value.left) \
+                        and nvar in {n.id for n in ast.walk(st.value.right) if isinstance(n, ast.Name)}:
+                    norm.append(st)
+            if not consume:
+                continue
+            # the normalisation must follow the accumulation inside one iteration
+            last_c = max(c.lineno for c in consume)
+            norm = [x for x in norm if x.lineno > last_c]
+            inside = {id(x) for x in ast.walk(lp)}
+            deferred = []
+            for x in pf.walk_no_nested(fn):
+                if isinstance(x, ast.BinOp) and isinstance(x.op, ast.Div) and id(x) not in inside:
+                    subs = [y for y in ast.walk(x.left) if isinstance(y, ast.Subscript) and isinstance(y.value, ast.Name)
+                            and y.value.id == R]
+                    for y in subs:
+                        idx = {n.id for n in ast.walk(y.slice) if isinstance(n, ast.Name)}
+                        if idx and idx & {n.id for n in ast.walk(x.right) if isinstance(n, ast.Name)}:
+                            deferred.append(x)
+            out.append((lp, R, app, consume, norm, deferred))
+    return out
+
+
+def rule_newton_girard(chk, uni):
+    km = uni.km
+    found = []
+    fns = [(fn.name, fn) for fn in km.functions.values()]
+    for cname, cls in km.classes.items():
+        fns += [("%s.%s" % (cname, n), f) for n, f in pf.methods(cls).items() if n not in getattr(km, "absorbed", ())]
+    for where, fn in fns:
+        for rec in _recursions(fn):
+            found.append((where, fn) + rec)
+    convention = any(norm and not deferred for (_, _, _, _, _, _, norm, deferred) in found)
+    seen = set()
+    for where, fn, lp, R, app, consume, norm, deferred in found:
+        if (where, R, lp.lineno) in seen:
+            continue
+        seen.add((where, R, lp.lineno))
+        inst = "%s: entries of the recursion list %s are normalised before later iterations consume them" % (where, R)
+        if norm and not deferred:
+            chk.ok("newton-girard", inst, detail=pf.src(norm[0]))
+        elif norm and deferred:
+            chk.violation("newton-girard", KR, where, "recursion %s" % R, deferred[0].lineno,
+                          "the entries of %s are divided by their index inside the recursion (`%s`) and again where they "
+                          "are summed (`%s`): the per-entry factor is applied twice"
+                          % (R, pf.src(norm[0]), pf.src(deferred[0])[:60]), instance=inst)
+        elif deferred and convention:
+            chk.violation("newton-girard", KR, where, "recursion %s" % R, consume[0].lineno,
+                          "`%s` builds each new entry of %s from EARLIER entries (`%s`), but the division of an entry by "
+                          "its index is postponed to the final summation (`%s`) instead of being applied inside the "
+                          "loop as the sibling recursions of this module do (e.g. `en[-1] /= n + 1`): from the second "
+                          "re-use on the consumed entries carry a pending factor, so every term of order >= 4 is wrong "
+                          "(orders <= 3 are exact only because the pending factors are 1)"
+                          % (pf.src(app)[:60], R, pf.src(consume[0])[:60], pf.src(deferred[0])[:60]), instance=inst)
+        else:
+            chk.ok("newton-girard", inst + " (no per-entry factor anywhere: not a normalised recursion)", nontrivial=False)
+            chk.note("newton-girard", where, "recursion over %s without any index-dependent division" % R)
+    chk.count("self-consuming list recursions", len(seen))
+
 # ----------------------------------------------------------------------------
 def analyse(chk):
     tree = chk.tree
@@ -1694,6 +1788,9 @@ def analyse(chk):
     chk.guard(rule_param_write, uni, prog)
     chk.rule("hyper-memo", "state kept on a kernel object between calls is keyed by every hyper-parameter it depends on")
     chk.guard(rule_hyper_memo, uni)
+    chk.rule("newton-girard", "list recursions that re-use earlier entries normalise each entry inside the loop, like their siblings")
+    chk.guard(rule_newton_girard, uni)
+    chk.floor("newton-girard", 4, "value and derivative recursions of DiffARBF and DiffAdditiveMixin")
     chk.floor("hyper-memo", 2, "the _locked flags of the two locking mixins")
     # external rules
     from sa import kerneldens  # noqa: E402 (b-eval: sign-domain rule for denominators of kernel gradients)
@@ -1890,6 +1987,21 @@ def rule_units(chk, uni, prog):
     chk.floor("units-hyper", 4, "9 typed __call__(eval_gradient=True) configurations")
 
 
+
+def _revert_ng(i):
+    """revert the i-th site (0..3) of the Newton-Girard fix: no division inside the loop, division at the summation"""
+    import re as _re
+
+    def fn(text):
+        pat = _re.compile(r"( +)den\[-1\] /= n\n((?:.*\n){1,6}?)( +)res \+= self\.scale\[n\] \* den\[n\]\n")
+        ms = list(pat.finditer(text))
+        if len(ms) <= i:
+            return None
+        m_ = ms[i]
+        return text[:m_.start()] + m_.group(2) + m_.group(3) + "res += self.scale[n] * den[n] / (n - 1)\n" + text[m_.end():]
+    return fn
+
+
 def mutants(tree):
     return [
         # units (E-deg)
@@ -1979,6 +2091,14 @@ def mutants(tree):
         Mutant("get_k zeroes small features of X0T in place", DKR, "        nspin, N0, Nsamp = X0T.shape\n        X1 = self.get_descriptors(X0T)\n        if self.mode == \"POL\":\n            if nspin == 1:\n                X1 = np.concatenate([X1, X1], axis=0)\n            elif nspin != 2:\n                raise ValueError\n            X1 = X1.reshape(2, Nsamp, self.N1)\n            kaa = self.kernel(X1[0], self.X1ctrl[0])",
                "        nspin, N0, Nsamp = X0T.shape\n        X0T[X0T < 1e-12] = 0.0\n        X1 = self.get_descriptors(X0T)\n        if self.mode == \"POL\":\n            if nspin == 1:\n                X1 = np.concatenate([X1, X1], axis=0)\n            elif nspin != 2:\n                raise ValueError\n            X1 = X1.reshape(2, Nsamp, self.N1)\n            kaa = self.kernel(X1[0], self.X1ctrl[0])",
                expect="param-write"),
+        # Newton-Girard recursions (each mutant reverts one site of the fix)
+        Mutant("ARBF.__call__ derivative recursion normalised at the summation", KR, fn=_revert_ng(0), expect="newton-girard"),
+        Mutant("ARBF.k_and_deriv derivative recursion normalised at the summation", KR, fn=_revert_ng(1), expect="newton-girard"),
+        Mutant("additive __call__ derivative recursion normalised at the summation", KR, fn=_revert_ng(2), expect="newton-girard"),
+        Mutant("additive k_and_deriv derivative recursion normalised at the summation", KR, fn=_revert_ng(3), expect="newton-girard"),
+        Mutant("value recursion not normalised in the loop", KR, "            en[-1] /= n + 1\n        res = 0\n        for n in range(self.order + 1):\n            res += self.scale[n] * en[n]\n            if eval_gradient and not self.hyperparameter_scale.fixed:\n                derivs[:, :, num_scale + n]",
+               "        res = 0\n        for n in range(self.order + 1):\n            res += self.scale[n] * en[n] / max(n, 1)\n            if eval_gradient and not self.hyperparameter_scale.fixed:\n                derivs[:, :, num_scale + n]",
+               expect="newton-girard"),
         # caches on kernel objects
         Mutant("ARBF.diag caches the contracted scale sum keyed on (nfeat, order)", KR,
                "        comb_list = np.array(comb_list)\n        return np.ones(X.shape[0]) * np.sum(self.scale * comb_list)",
